@@ -765,10 +765,10 @@ class UniformTime(np.ndarray, TimeInterface):
             You can either use += on the full array, OR
             create a new TimeArray from this UniformTime""")
 
-    def _convert_and_check_uniformity(self, val):
+    def _convert_and_check_uniformity(self, val, sign=1):
         # look at the units - convert the values to what they need to be (in
         # the base_unit), without touching the caller's array, and check that
-        # adding them preserves uniformity
+        # adding (sign=1) or subtracting (sign=-1) them preserves uniformity
         if not hasattr(val, '_conversion_factor'):
             val = np.asarray(val)
             if getattr(val, 'dtype', None) == np.int32:
@@ -785,6 +785,9 @@ class UniformTime(np.ndarray, TimeInterface):
                     interval between them in order to preserve uniformity.
                     Uniformity is broken at these indices: %s
                     """ %str(uniformity_breaks))
+            if int(self.sampling_interval) + sign * int(dv[0]) <= 0:
+                raise ValueError("The operand would not leave a positive "
+                                 "sampling interval")
         return val
 
     def _follow_shift(self, val, sign):
@@ -809,12 +812,15 @@ class UniformTime(np.ndarray, TimeInterface):
         return self
 
     def __isub__(self, val):
-        val = self._convert_and_check_uniformity(val)
+        val = self._convert_and_check_uniformity(val, -1)
         np.ndarray.__isub__(self, val)
         self._follow_shift(val, -1)
         return self
 
     def __imul__(self, val):
+        if np.ndim(val) != 0 or not val > 0:
+            raise ValueError("A UniformTime can only be scaled by a "
+                             "positive number")
         np.ndarray.__imul__(self, val)
         self.t0 = self.t0 * val
         self.sampling_interval = self.sampling_interval * val
